@@ -269,6 +269,22 @@ theorem enum_make_range_elems (w n : Nat) (hw : 1 ≤ w) (hn : (n : Int) < 2 ^ w
   have := enum_make_range_start_elems w n hw hn 0 (Int.le_refl _) (by omega) f
   simpa [makeRange] using this
 
+/-- an inverted pair (`start > end + 1`, a precondition violation of `make_range_start_end`) is **not** empty: the loop runs to
+the maximum of the `size_type`, wraps and stops at `end` — mirrored and exercised, outside the property -/
+theorem enum_range_inverted_wraps (w : Nat) (hw : 1 ≤ w) (s e : Int) (he0 : 0 ≤ e) (hes : e + 1 < s) (hs : s < 2 ^ w) (f : Nat) :
+    (makeRangeStartEnd w s e).elems w (f + ((2 ^ w - 1 - s).toNat + 1) + ((e + 1).toNat + 1)) =
+      .ok (Spec.iota s ((2 ^ w - 1 - s).toNat + 1) ++ Spec.iota 0 (e + 1).toNat) := by
+  have hlo : (sizeTy w).lo = 0 := by simp [sizeTy, IntTy.lo]
+  have hhi : (sizeTy w).hi = 2 ^ w - 1 := by simp [sizeTy, IntTy.hi]
+  have hb : 1 ≤ (sizeTy w).bits := hw
+  have htr : (sizeTy w).trapping = false := by simp [sizeTy, IntTy.trapping]
+  unfold makeRangeStartEnd EnumRange.elems
+  simp only
+  rw [IntTy.wrap_of_inRange (sizeTy w) hb ⟨by omega, by omega⟩]
+  have := int_iter_range_inverted_wraps (sizeTy w) hb htr s (e + 1) ⟨by omega, by omega⟩ ⟨by omega, by omega⟩ (by omega) f
+  rw [hhi, hlo] at this
+  simpa [intIterRange] using this
+
 /-- the boundary of that guard: an enum that uses *every* value of its `size_type` (`2^w` enumerators) gets an
 **empty** `make_range()`, because `max + 1` wraps to `0`.  Outside the property's quantifier (≤ 9 enumerators);
 recorded so that the guard `n < 2^w` above is seen to be sharp. -/
@@ -346,7 +362,7 @@ theorem advance_position (c : Cyc) (hlt : c.first < c.second) (n : Int) :
     c.advance n = .ok { c with it := c.first + Spec.cycOffset (c.second - c.first) (c.it - c.first) n } :=
   Cyc.advance_eq c n hlt
 
-/-- **whole histories**: after any sequence of `++`, `--`, `+= n`, `-= n` the iterator is inside its boundary, the boundary
+/-- **whole histories**: after any sequence of `++` / `it++`, `--` / `it--`, `+= n`, `-= n` (`CycOp.sub`) the iterator is inside its boundary, the boundary
 is unchanged, and the position is the start offset plus the net displacement, modulo the boundary length -/
 theorem history_position (c : Cyc) (h : c.Inside) (ops : List CycOp) :
     ∃ c', c.run ops = .ok c' ∧ c'.Inside ∧ c'.first = c.first ∧ c'.second = c.second ∧
@@ -441,6 +457,14 @@ theorem empty_boundary_steps (c : Cyc) (h : c.first = c.second) (hit : c.it = c.
 theorem default_ctor_empty (n : Int) :
     Cyc.default.first = Cyc.default.second ∧ Cyc.default.it = Cyc.default.first ∧ Cyc.default.advance n = .error .divZero :=
   ⟨rfl, rfl, advance_empty_boundary _ rfl n⟩
+
+/-- **converting constructor / assignment** (`cyclic_iterator<iterator>` → `cyclic_iterator<const_iterator>`, compiles since
+fix e9807ba): position and boundary are kept, whatever the target held before — so everything proved above about
+`advance`, `++`, `--` and whole histories holds for the converted iterator as for its source -/
+theorem convert_keeps (c self : Cyc) (n : Int) (ops : List CycOp) :
+    Cyc.convert c = c ∧ Cyc.assignFrom self c = c ∧ (Cyc.convert c).advance n = c.advance n ∧
+      (Cyc.assignFrom self c).run ops = c.run ops := by
+  cases c; exact ⟨rfl, rfl, rfl, rfl⟩
 
 /-- **`ptrdiff_t` arithmetic**: as long as `offset + n` is representable `advance` is the mathematical one … -/
 theorem advance64_eq (c : Cyc) (n : Int) (h : ptrdiffTy.InRange (c.it - c.first + n)) : c.advance64 n = c.advance n := by
@@ -621,6 +645,44 @@ theorem moore_eq (t : IntTy) (hb : 1 ≤ t.bits) (p : Pos) (hx : t.lo < p.x ∧ 
   rw [pred_ok t hb (by omega) (by omega), incr_ok t hb (by omega) (by omega),
     pred_ok t hb (by omega) (by omega), incr_ok t hb (by omega) (by omega)]
   rfl
+
+/-- on the edge of an `int` / `long` coordinate type the neighbour computation overflows (undefined; "no range checking is performed") -/
+theorem neighbours_edge_overflow (t : IntTy) (htr : t.trapping = true) (p : Pos)
+    (h : p.x = t.lo ∨ p.x = t.hi ∨ p.y = t.lo ∨ p.y = t.hi) :
+    neumann t p = .error .signedOverflow ∧ moore t p = .error .signedOverflow := by
+  have key : ∀ (a b c d : M Int), (a = .error .signedOverflow ∨ b = .error .signedOverflow ∨ c = .error .signedOverflow ∨ d = .error .signedOverflow) →
+      (∀ v, v = a ∨ v = b ∨ v = c ∨ v = d → v = .error .signedOverflow ∨ ∃ x, v = .ok x) →
+      (match a, b, c, d with
+        | .ok xm, .ok xp, .ok ym, .ok yp => (.ok [⟨xm, p.y⟩, ⟨xp, p.y⟩, ⟨p.x, ym⟩, ⟨p.x, yp⟩] : M (List Pos))
+        | .error e, _, _, _ => .error e
+        | _, .error e, _, _ => .error e
+        | _, _, .error e, _ => .error e
+        | _, _, _, .error e => .error e) = .error .signedOverflow ∧
+      (match a, b, c, d with
+        | .ok xm, .ok xp, .ok ym, .ok yp =>
+          (.ok [⟨xm, p.y⟩, ⟨xp, p.y⟩, ⟨p.x, ym⟩, ⟨p.x, yp⟩, ⟨xm, ym⟩, ⟨xm, yp⟩, ⟨xp, ym⟩, ⟨xp, yp⟩] : M (List Pos))
+        | .error e, _, _, _ => .error e
+        | _, .error e, _, _ => .error e
+        | _, _, .error e, _ => .error e
+        | _, _, _, .error e => .error e) = .error .signedOverflow := by
+    intro a b c d hone hall
+    have ha := hall a (Or.inl rfl)
+    have hb' := hall b (Or.inr (Or.inl rfl))
+    have hc := hall c (Or.inr (Or.inr (Or.inl rfl)))
+    have hd := hall d (Or.inr (Or.inr (Or.inr rfl)))
+    rcases ha with ha | ⟨xa, ha⟩ <;> rcases hb' with hb' | ⟨xb, hb'⟩ <;> rcases hc with hc | ⟨xc, hc⟩ <;> rcases hd with hd | ⟨xd, hd⟩ <;>
+      subst ha hb' hc hd <;> simp at hone ⊢
+  have hall : ∀ v, v = pred t p.x ∨ v = incr t p.x ∨ v = pred t p.y ∨ v = incr t p.y → v = .error .signedOverflow ∨ ∃ x, v = .ok x := by
+    intro v hv
+    rcases hv with rfl | rfl | rfl | rfl <;> (first | (unfold pred; split <;> simp) | (unfold incr; split <;> simp))
+  have hone : pred t p.x = .error .signedOverflow ∨ incr t p.x = .error .signedOverflow ∨ pred t p.y = .error .signedOverflow ∨
+      incr t p.y = .error .signedOverflow := by
+    rcases h with h | h | h | h
+    · left; unfold pred; simp [htr, h]; omega
+    · right; left; unfold incr; simp [htr, h]; omega
+    · right; right; left; unfold pred; simp [htr, h]; omega
+    · right; right; right; unfold incr; simp [htr, h]; omega
+  exact key _ _ _ _ hone hall
 
 /-- the four von Neumann neighbours are exactly the points at Manhattan distance 1, each once -/
 theorem neumann_spec (p q : Pos) : (q ∈ Spec.neumann p ↔ Spec.manhattan q p = 1) ∧ (Spec.neumann p).Nodup := by
